@@ -58,6 +58,21 @@ def special_objects():
         out.append(qc.from_(t).select("*", t.star, t.a).distinct().groupby(t.a).having(fn.Count("*") > 1).limit(5).offset(1))
         out.append(qc.into(t).columns("a").insert(1).insert(2))
         out.append(qc.from_(t).select(t.a).union(qc.from_(u).select(u.a)).orderby("a").limit(3))
+    # every kind of constant at the positions where a builder uses its own wrapper class (select list, SET) and a plain one (criteria, rows)
+    import datetime, decimal, uuid
+    tz = datetime.timezone(datetime.timedelta(hours=2))
+    consts = ["s'q\\", 7, -2.5, decimal.Decimal("1.10"), True, None, datetime.date(2020, 1, 2), datetime.datetime(2020, 1, 2, 3, 4, 5, tzinfo=tz),
+              datetime.time(9, 30, tzinfo=tz), datetime.time(1, 2, 3), uuid.UUID("12345678-1234-5678-1234-567812345678"), {"k": ["v", 1]}, [1, "two"],
+              B.P.enums.Order.asc]
+    for qc in B.QUERY_CLASSES:
+        t = T_("t")
+        for v in consts:
+            try:
+                out.append(qc.update(t).set(t.a, v).where(t.b == v))
+                out.append(qc.from_(t).select(v, t.a).where(t.c.isin([v, v])))
+                out.append(qc.into(t).insert(v, 1))
+            except Exception:
+                pass
     out.append(B.MySQLQuery.from_(T_("t")).select("a").distinct().modifier("SQL_CALC_FOUND_ROWS"))
     out.append(B.PostgreSQLQuery.from_(T_("t")).select("a").distinct_on("a", "b"))
     out.append(B.PostgreSQLQuery.into(T_("t")).insert(1, "x").on_conflict("a").do_update("b", "y").returning("*"))
@@ -90,6 +105,51 @@ for i, o in enumerate(objs):
             outs.append(repr(corr.impl_render(o, base, mode)))
     print(i, hashlib.sha1("\n".join(outs).encode()).hexdigest(), outs[0][:150].replace("\n", " "))
 '''
+
+
+class _Hook:
+    """an inlined value whose text is produced by str(): the suspension point"""
+
+    def __init__(self):
+        self.fn = None
+
+    def __str__(self):
+        if self.fn is not None:
+            f, self.fn = self.fn, None
+            f()
+        return "7"
+
+
+def interleaving_probe():
+    import pypika_tortoise as P
+    from pypika_tortoise import terms as T
+    out = []
+    entries = [("get_parameterized_sql()", lambda q: q.get_parameterized_sql()), ("str()", lambda q: str(q)), ("get_sql()", lambda q: q.get_sql()),
+               ("get_parameterized_sql(ctx)", lambda q: q.get_parameterized_sql(q.QUERY_CLS.SQL_CONTEXT))]
+    for qc in genobj.QUERY_CLASSES:
+        t = P.Table("t")
+        for ename, entry in entries:
+            for iname, inner in entries:
+                h = _Hook()
+                q = (qc.from_(t).select(t.a, T.ValueWrapper(5)).where(t.a == 1).where(t.b == T.ValueWrapper(h, allow_parametrize=False))
+                     .where(t.c == "x").limit(3))
+                other = qc.from_(t).select(t.z).where(t.z == 9)
+                try:
+                    base, base_inner, base_other = entry(q), inner(q), inner(other)
+                    for target, expect in ((q, base_inner), (other, base_other)):
+                        got = []
+                        h.fn = lambda target=target: got.append(inner(target))
+                        outer = entry(q)
+                        if repr(outer) != repr(base) or repr(got[0]) != repr(expect):
+                            out.append({"kind": "interleaving", "class": genobj.QNAMES[qc], "suspended_render": ename, "completed_render": iname,
+                                        "what": "a render that runs while another render is suspended changes a result (process-wide or per-object state)",
+                                        "suspended_alone": repr(base)[:300], "suspended_interleaved": repr(outer)[:300],
+                                        "completed_alone": repr(expect)[:300], "completed_interleaved": repr(got[0])[:300]})
+                            return out
+                except Exception as e:  # noqa
+                    out.append({"kind": "interleaving", "what": "probe raised %s: %s" % (type(e).__name__, str(e)[:200])})
+                    return out
+    return out
 
 
 def hashseed_probe(run, n, seeds):
@@ -164,6 +224,10 @@ def check(run: core.Run):
             if out != seq_out[i]:
                 findings.append({"kind": "threads", "object": type(shared[i]).__name__, "what": "concurrent render differs from sequential render"})
                 break
+    # deterministic interleaving: a render B runs to completion while a render A of the same shared object is suspended (inside str() of an
+    # inlined value) - one of the schedules two threads can produce; every public entry point, no caller-supplied parameterizer
+    for f in interleaving_probe():
+        findings.append(f)
     # hash seeds
     diffs, err = hashseed_probe(run, 120 if run.tier == "quick" else 1200, [0, 1, 2, 3] if run.tier == "quick" else [0, 1, 2, 3, 4, 5, 6, 7])
     if err:
